@@ -1,6 +1,8 @@
 package engine
 
 import (
+	rt "github.com/enbility/spine-go/internal/verifrt"
+
 	"crypto/sha256"
 	"encoding/hex"
 	"encoding/json"
@@ -74,10 +76,65 @@ func (c *Ctx) PoolFor(race bool, extraArgs ...string) *Pool {
 type Check struct {
 	ID        string
 	NeedsRace bool
+	Drivers   func(c *Ctx) []*HDriver   // engine H drivers (optional)
+	Scenarios func(c *Ctx) []*SScenario // engine S scenarios (optional)
 	Run       func(c *Ctx) *Report
-	Work      func(c *Ctx, job json.RawMessage) json.RawMessage
-	// ReplayFn re-executes a stored replay and reports whether it still violates.
-	ReplayFn func(c *Ctx, replay json.RawMessage) (bool, string)
+	Work      func(c *Ctx, job json.RawMessage) json.RawMessage // custom jobs (engine I)
+}
+
+// Dispatch is the worker entry point: history, schedule or custom job.
+func (k *Check) Dispatch(c *Ctx, job json.RawMessage) json.RawMessage {
+	var probe struct{ Driver, Scenario string }
+	json.Unmarshal(job, &probe)
+	switch {
+	case probe.Driver != "" && k.Drivers != nil:
+		return WorkHistories(k.Drivers(c), job)
+	case probe.Scenario != "" && k.Scenarios != nil:
+		return WorkSchedules(k.Scenarios(c), job)
+	case k.Work != nil:
+		return k.Work(c, job)
+	}
+	panic("no worker for job " + string(job))
+}
+
+// ReplayStored re-executes a stored replay (history or schedule) and reports
+// whether it still violates.
+func (k *Check) ReplayStored(c *Ctx, replay json.RawMessage) (bool, string) {
+	var r struct {
+		Driver   string
+		History  []string
+		Scenario string
+		Choices  []int
+	}
+	if err := json.Unmarshal(replay, &r); err != nil {
+		return false, "cannot decode replay: " + err.Error()
+	}
+	if r.Driver != "" && k.Drivers != nil {
+		for _, d := range k.Drivers(c) {
+			if d.Name == r.Driver {
+				h := r.History
+				st, _ := ExecStep(d, h[:len(h)-1], h[len(h)-1])
+				msg := fmt.Sprintf("history: %v\nstate: %s\nobservation: %s\nviolations: %v", h, st.Key, st.Digest, st.Violations)
+				return len(st.Violations) > 0, msg
+			}
+		}
+	}
+	if r.Scenario != "" && k.Scenarios != nil {
+		for _, sc := range k.Scenarios(c) {
+			if sc.Name == r.Scenario {
+				out := sc.Run(rt.Config{Replay: r.Choices, TimersFree: sc.TimersFree, MaxTicks: sc.MaxTicks, Horizon: sc.Horizon, Names: true})
+				var names []string
+				for _, cp := range out.Res.Choices {
+					if cp.Chosen < len(cp.Names) {
+						names = append(names, cp.Names[cp.Chosen])
+					}
+				}
+				msg := fmt.Sprintf("schedule: %v\noutcome: %s\nviolations: %v\ndiverged: %q", names, out.Digest, out.Violations, out.Res.Diverged)
+				return len(out.Violations) > 0, msg
+			}
+		}
+	}
+	return false, "replay does not name a driver or scenario of this check"
 }
 
 var Checks = map[string]*Check{}
